@@ -189,13 +189,14 @@ def run(ctx):
     sizes += [rnd.randrange(2, 70000) for _ in range(4 if ctx.tier == 'quick' else 60)]
     if ctx.tier == 'thorough':
         sizes += [k * 4096 for k in range(5, 33)] + [k * 512 for k in range(3, 40)] + [1 << 20, (1 << 20) + 1]
+    sizes = list(dict.fromkeys(sizes))
     skipsz = []
     for j, sz in enumerate(sizes):
         lv = j % 4
         ms = [arc.file_member(rnd, '-lh0-', b'first.bin', size=sz, level=lv), arc.file_member(rnd, '-lh5-', b'second.bin', size=40, level=(lv + 1) % 4),
               arc.file_member(rnd, '-lz4-' if j % 2 else '-lh0-', b'third.bin', size=sizes[(j * 7 + 3) % len(sizes)] % 70000, level=lv),
               arc.file_member(rnd, '-lh1-', b'fourth.bin', size=9, level=1)]
-        skipsz.append(('skip-size-%d' % sz, arc.archive(ms)))
+        skipsz.append(('skip-size-%d#%d' % (sz, j), arc.archive(ms)))
     base = corp + gen + skipsz
     # truncations
     trunc = []
